@@ -1,12 +1,12 @@
 (** C15 - Smoothing moves only free interior points, to their neighbours' average.
 
-    Model: Model/Smooth.v (grid construction, boundary detection, neighbour lists, Gauss-Seidel sweeps,
+    Model: Model/C15_Smooth.v (grid construction, boundary detection, neighbour lists, Gauss-Seidel sweeps,
     copy back), tied to /repo by the correspondence of the check.  The cell tables
     [quad_ct]/[hex_ct] of Gen/C15/Tables.v are the real QuadCell/HexCell tables of this run.
     A point set is three coordinate columns swept with one schedule, so the statements about one
     column [s : list Q] hold for x, y and z alike. *)
 From Coq Require Import List Bool Arith ZArith QArith Qabs Lia Lqa.
-From CB Require Import Base.Hex Model.Smooth Proofs.Smooth Proofs.SmoothGraph.
+From CB Require Import Base.Hex Model.C15_Smooth Proofs.C15_Smooth Proofs.C15_SmoothGraph Proofs.C15_Fast Proofs.C15_Lattice Proofs.C15_Converge.
 From CB Require Import Gen.C15.Tables.
 Import ListNotations.
 Close Scope Q_scope.
@@ -100,9 +100,9 @@ Definition C15_monotone_stmt : Prop :=
 
 (** structured nx x ny maps: the boundary is the border, every inner point has its 4 lattice neighbours,
     every regular (affine) lattice is left unchanged by any number of sweeps with any fixed set, and it
-    is the only such configuration with that border.  Proved for 1 <= nx, ny <= 6 (finite part) and all
+    is the only such configuration with that border.  Proved for 1 <= nx, ny <= 10 (finite part) and all
     rational origins and steps. *)
-Definition lattice_size (nx ny : nat) : Prop := 1 <= nx <= 6 /\ 1 <= ny <= 6.
+Definition lattice_size (nx ny : nat) : Prop := 1 <= nx <= 10 /\ 1 <= ny <= 10.
 Definition C15_lattice_stmt (size_ok : nat -> nat -> Prop) : Prop :=
   forall nx ny, size_ok nx ny ->
     let cells := struct_cells nx ny in
@@ -126,10 +126,18 @@ Definition C15_backport_stmt : Prop :=
         forall i, i <= list_max (concat quads) ->
           nth i (sketch_positions d (backport d pos quads) quads) d = nth i pos d).
 
-(** full reading of "after enough iterations each free point equals that average": convergence.
-    Not proved; proved instead: the distance to the unique limit never increases (C15_monotone),
-    the limit candidate is unique (C15_unique) and is exactly the set of fixed points (C15_fixed_point).
-    Actual convergence within 200 sweeps is validated by the check's oracle. *)
+(** the correspondence evaluates [smooth_fast] / [nbrs_fast] (neighbours gathered from the cells around a
+    junction); they are the transcribed double loops *)
+Definition C15_fast_model_stmt : Prop :=
+  (forall ct cells n j, nbrs_fast ct cells n j = nbrs ct cells n j)
+  /\ (forall ct cells n fixed, schedule_fast ct cells n fixed = schedule ct cells n fixed)
+  /\ (forall g fixed_idx targets tol2 iters p,
+        smooth_fast g fixed_idx targets tol2 iters p = smooth g fixed_idx targets tol2 iters p).
+
+(** "after enough iterations each free point equals that average": convergence of the sweeps.  For every
+    schedule in which each visited junction reaches (through neighbour lists) a junction that is not
+    visited, and every configuration [h] that is harmonic at the visited junctions and carries the values of
+    [s] elsewhere, the iterates come (and stay) arbitrarily close to [h] in the max norm. *)
 Definition C15_convergence_stmt : Prop :=
   forall sched s h,
     length s = length h -> wf_sched (length s) sched -> NoDup (map fst sched) ->
@@ -138,8 +146,22 @@ Definition C15_convergence_stmt : Prop :=
     (forall i, In i (map fst sched) -> reach sched i) ->
     forall eps, (0 < eps)%Q -> exists K, forall k, K <= k -> within eps (iterate k sched s) h.
 
-Definition C15_convergence_partial_stmt : Prop :=
-  C15_monotone_stmt /\ C15_unique_stmt /\ C15_fixed_point_stmt.
+(** the same for [smooth] on a grid, in three dimensions: when every free junction reaches a boundary or
+    fixed junction, the smoothed points converge to the configuration that leaves boundary / fixed points
+    where they are and has every free point on the average of its edge neighbours *)
+Definition C15_smooth_converges_stmt : Prop :=
+  forall g fixed_idx targets tol2 xs ys zs hx hy hz,
+    let fixed := fixed_idx ++ fix_points (g_n g) (xs, ys, zs) targets tol2 in
+    let sch := schedule (g_ct g) (g_cells g) (g_n g) fixed in
+    length xs = g_n g -> length ys = g_n g -> length zs = g_n g ->
+    length hx = g_n g -> length hy = g_n g -> length hz = g_n g ->
+    (forall jn, In jn sch -> harmonic_at hx jn /\ harmonic_at hy jn /\ harmonic_at hz jn) ->
+    (forall i, ~ In i (map fst sch) ->
+        (nth i xs 0 == nth i hx 0)%Q /\ (nth i ys 0 == nth i hy 0)%Q /\ (nth i zs 0 == nth i hz 0)%Q) ->
+    (forall i, In i (map fst sch) -> reach sch i) ->
+    forall eps, (0 < eps)%Q -> exists K, forall iters, K <= iters ->
+      let '(xs', ys', zs') := smooth g fixed_idx targets tol2 iters (xs, ys, zs) in
+      within eps xs' hx /\ within eps ys' hy /\ within eps zs' hz.
 
 (** ** proofs *)
 Ltac finite_forall tab chk :=
@@ -226,49 +248,55 @@ Proof.
   - apply positions_roundtrip.
 Qed.
 
-Theorem C15_convergence_partial : C15_convergence_partial_stmt.
-Proof. exact (conj C15_monotone (conj C15_unique C15_fixed_point)). Qed.
+Theorem C15_fast_model : C15_fast_model_stmt.
+Proof. exact (conj nbrs_fast_eq (conj schedule_fast_eq smooth_fast_eq)). Qed.
 
-(** structured maps: the finite part, for every size up to 6 x 6, from the tabulated quad cell *)
-Definition sizes : list nat := [1; 2; 3; 4; 5; 6].
+Theorem C15_convergence : C15_convergence_stmt.
+Proof. exact convergence. Qed.
 
-Lemma lattice_ok_all : forallb (fun nx => forallb (fun ny => lattice_ok quad_ct nx ny) sizes) sizes = true.
-Proof. vm_compute. reflexivity. Qed.
-
-Lemma lattice_ok_size nx ny : lattice_size nx ny -> lattice_ok quad_ct nx ny = true.
+Lemma schedule_wf_sched ct cells n fixed :
+  (forall i, In i (map fst (schedule ct cells n fixed)) -> reach (schedule ct cells n fixed) i) ->
+  wf_sched n (schedule ct cells n fixed).
 Proof.
-  intros [Hx Hy]. pose proof lattice_ok_all as H. rewrite forallb_forall in H.
-  assert (Ix : In nx sizes) by (unfold sizes; simpl; lia).
-  assert (Iy : In ny sizes) by (unfold sizes; simpl; lia).
-  specialize (H nx Ix). rewrite forallb_forall in H. exact (H ny Iy).
+  intros Hr jn Hin. destruct (schedule_wf_lt _ _ _ _ _ Hin) as [A B]. split; [exact A|]. split; [|exact B].
+  assert (Hv : In (fst jn) (map fst (schedule ct cells n fixed))) by (apply in_map; exact Hin).
+  pose proof (Hr _ Hv) as R. inversion R as [i Hnot|i nb t Hin' Ht _]; subst; [contradiction|].
+  assert (ND := schedule_NoDup ct cells n fixed).
+  destruct jn as [j nb0]. simpl in *.
+  assert (nb = nb0) by (apply (sched_functional _ ND j); assumption). subst nb0.
+  intro E. subst nb. destruct Ht.
+Qed.
+
+Theorem C15_smooth_converges : C15_smooth_converges_stmt.
+Proof.
+  intros g fixed_idx targets tol2 xs ys zs hx hy hz fixed sch Lx Ly Lz Lhx Lhy Lhz Hh Hb Hr eps He.
+  assert (WF : wf_sched (g_n g) sch) by (apply schedule_wf_sched; exact Hr).
+  assert (ND : NoDup (map fst sch)) by apply schedule_NoDup.
+  assert (Cv : forall s h, length s = g_n g -> length h = g_n g ->
+            (forall jn, In jn sch -> harmonic_at h jn) ->
+            (forall i, ~ In i (map fst sch) -> (nth i s 0 == nth i h 0)%Q) ->
+            exists K, forall k, K <= k -> within eps (iterate k sch s) h).
+  { intros s h Ls Lh H1 H2. apply convergence; auto; [congruence|rewrite Ls; exact WF]. }
+  destruct (Cv xs hx Lx Lhx (fun jn Hj => proj1 (Hh jn Hj)) (fun i Hi => proj1 (Hb i Hi))) as [Kx HKx].
+  destruct (Cv ys hy Ly Lhy (fun jn Hj => proj1 (proj2 (Hh jn Hj))) (fun i Hi => proj1 (proj2 (Hb i Hi)))) as [Ky HKy].
+  destruct (Cv zs hz Lz Lhz (fun jn Hj => proj2 (proj2 (Hh jn Hj))) (fun i Hi => proj2 (proj2 (Hb i Hi)))) as [Kz HKz].
+  exists (Kx + Ky + Kz). intros iters Hk. unfold smooth. fold fixed. fold sch.
+  split; [apply HKx; lia|]. split; [apply HKy; lia|apply HKz; lia].
+Qed.
+
+(** structured maps: the finite part, for every size up to 10 x 10.  The check [lattice_ok_all] is evaluated once
+    for the reference quad table (Proofs/C15_Lattice.v, prebuilt); when the tabulated QuadCell of this run is
+    that table (conversion) the result is reused, otherwise it is recomputed here for the tabulated one. *)
+Lemma lattice_ok_all_run : lattice_ok_all quad_ct = true.
+Proof.
+  first [ exact (eq_ind quad_ref (fun ct => lattice_ok_all ct = true) lattice_ok_all_ref quad_ct eq_refl)
+        | vm_compute; reflexivity ].
 Qed.
 
 Theorem C15_lattice_partial : C15_lattice_stmt lattice_size.
 Proof.
-  intros nx ny Hsz cells n. pose proof (lattice_ok_size nx ny Hsz) as OK.
-  pose proof OK as OK0. unfold lattice_ok in OK0. fold cells n in OK0.
-  apply andb_true_iff in OK0. destruct OK0 as [OK0 Hreach].
-  apply andb_true_iff in OK0. destruct OK0 as [OK0 H4].
-  apply andb_true_iff in OK0. destruct OK0 as [OK0 Hbd].
-  apply andb_true_iff in OK0. destruct OK0 as [Hwf _].
-  rewrite forallb_forall in Hbd, H4.
-  split; [|split; [|split]].
-  - intros k Hk. apply eqb_prop. apply Hbd. apply in_seq. lia.
-  - intros fixed jn Hin. apply Nat.eqb_eq. apply H4. apply (schedule_sub _ _ _ fixed). exact Hin.
-  - intros fixed iters o a b. apply (lattice_fixed_point quad_ct nx ny OK).
-  - intros o a b h Lh Hh Hb.
-    assert (Ll : length (lattice nx ny o a b) = n) by (unfold lattice; rewrite map_length, seq_length; reflexivity).
-    apply (harmonic_unique (schedule quad_ct cells n [])).
-    + congruence.
-    + rewrite Lh. apply wf_schedb_sound. exact Hwf.
-    + exact Hh.
-    + intros jn Hin. apply (lattice_harmonic quad_ct nx ny OK []). exact Hin.
-    + intros i Hi. destruct (Nat.lt_ge_cases i n) as [Hlt|Hge].
-      * apply Hb; [exact Hlt|]. rewrite <- (eqb_prop _ _ (Hbd i (proj2 (in_seq _ _ _) (conj (Nat.le_0_l i) Hlt)))).
-        destruct (is_boundary quad_ct cells i) eqn:E; [reflexivity|].
-        exfalso. apply Hi. apply schedule_fst_spec. repeat split; auto.
-      * rewrite !nth_overflow; [reflexivity|lia|lia].
-    + apply all_reach_sound. exact Hreach.
+  intros nx ny [Hx Hy]. apply lattice_ok_sound.
+  apply (lattice_ok_all_sound quad_ct lattice_ok_all_run); assumption.
 Qed.
 
 (** ** the hypotheses are satisfiable: the 4 x 4 structured map (3 x 3 inner points) with a regular lattice *)
@@ -281,7 +309,7 @@ Example C15_hypotheses_satisfiable :
   /\ (forall jn, In jn sch -> fst jn < length h).
 Proof.
   intros sch h.
-  assert (OK : lattice_ok quad_ct 4 4 = true) by (vm_compute; reflexivity).
+  assert (OK : lattice_ok quad_ct 4 4 = true) by (apply (lattice_ok_all_sound quad_ct lattice_ok_all_run); unfold max_size; lia).
   assert (L : length h = struct_n 4 4) by (unfold h, lattice; rewrite map_length, seq_length; reflexivity).
   split; [vm_compute; reflexivity|]. split; [apply schedule_NoDup|].
   split; [rewrite L; apply wf_schedb_sound; vm_compute; reflexivity|].
@@ -305,5 +333,7 @@ Print Assumptions C15_fixed_point.
 Print Assumptions C15_unique.
 Print Assumptions C15_monotone.
 Print Assumptions C15_backport.
-Print Assumptions C15_convergence_partial.
+Print Assumptions C15_fast_model.
+Print Assumptions C15_convergence.
+Print Assumptions C15_smooth_converges.
 Print Assumptions C15_lattice_partial.
